@@ -109,7 +109,7 @@ def rxso3_Ws(x):
     B[condition2] = (theta_c2 - theta_c2.sin()) / (theta2[condition2] * theta_c2)
 
     # condition3
-    C[sigma_larger] = (scale[sigma_larger] - 1.0) / sigma[sigma_larger]
+    C[sigma_larger] = torch.expm1(sigma[sigma_larger]) / sigma[sigma_larger]
     sigma_c3, scale_c3, sigma2_c3 = sigma[condition3], scale[condition3], sigma2[condition3]
     A[condition3] = (1.0 + (sigma_c3 - 1.0) * scale_c3) / sigma2_c3
     B[condition3] = (0.5 * sigma2_c3 * scale_c3 + scale_c3 - 1.0 - sigma2_c3 * scale_c3) / (sigma2_c3 * sigma_c3)
